@@ -221,12 +221,26 @@ def oracle(case, out):
     elif k == "map":
         base = out["base"]["trace"]
         infs = any(SC.energy_of_call(case, c) in (math.inf, -math.inf) for c in out["base"]["calls"])
+        emon = any(o["op"] == "SetEvalMonitor" for o in case["ops"])
         for r in out["outs"]:
             for j, (a, b) in enumerate(zip(base, r["out"]["trace"])):
                 va, vb = view(a, with_evals=not infs), view(b, with_evals=not infs)
                 if va != vb:
                     diff = [q for q in va if va[q] != vb[q]]
-                    f.append(SC.fail("schedule_irrelevant", "DifferentialEvolutionSolver2", "trajectory-depends-on-map-order:" + r["map"], dict(op=j, fields=diff)))
+                    pat = "trajectory-depends-on-map-order:" + r["map"]
+                    if infs and emon and diff == ["msg"] and "limits" in (a["msg"], b["msg"]):
+                        # F13 seen through the evaluation limit: python_map + evaluation monitor counts every call (len(monitor)), a supplied
+                        # map feeds a Null monitor and the counter skips infinite energies: only the evaluation-limit stop differs
+                        pat = "evaluation-limit-stop-differs-builtin-vs-supplied-map:de2-skips-infinite-energies-without-evaluation-monitor"
+                    f.append(SC.fail("schedule_irrelevant", "DifferentialEvolutionSolver2", pat, dict(op=j, fields=diff)))
+                    break
+        # the supplied maps among themselves: the same work items in another order, interleaving or thread: everything must agree (counters too)
+        for r in out["outs"][1:]:
+            r0 = out["outs"][0]
+            for j, (a, b) in enumerate(zip(r0["out"]["trace"], r["out"]["trace"])):
+                if view(a) != view(b):
+                    diff = [q for q in view(a) if view(a)[q] != view(b)[q]]
+                    f.append(SC.fail("schedule_irrelevant", "DifferentialEvolutionSolver2", "trajectory-depends-on-map-order:%s-vs-%s" % (r0["map"], r["map"]), dict(op=j, fields=diff)))
                     break
     elif k == "seed":
         if out["a"] != out["b"]:
@@ -260,9 +274,13 @@ def coq_terms(case, out):
     elif k == "map":
         if L.modelled(case):
             T.append(L.check_term(case, out["base"], "mask_all"))
-            for r in out["outs"]:
-                # under another map the evaluation ORDER (call log, monitor) may differ: compare everything else
-                T.append(L.check_term(case, r["out"], "(mk_mask true true false true false true false true)"))
+            # DE2 given a map other than python_map wraps its cost with a Null monitor (differential_evolution.py
+            # _decorate_objective): an installed evaluation monitor then stays empty and the counter is the F13 formula
+            # without a monitor.  That mode is not in the machine model: such runs are compared by the oracle only.
+            if not any(o["op"] == "SetEvalMonitor" for o in case["ops"]):
+                for r in out["outs"]:
+                    # under another map the evaluation ORDER (call log, monitor) may differ: compare everything else
+                    T.append(L.check_term(case, r["out"], "(mk_mask true true false true false true false true)"))
     return T
 
 
